@@ -19,9 +19,12 @@ for prop in props:
 shutil.rmtree(dst, ignore_errors=True)
 res['false_alarm'] = any(v['exit'] == 1 for v in res['checks'].values())
 res['undecided'] = sorted(k for k, v in res['checks'].items() if v['exit'] == 2)
-os.makedirs('/verif/seeded/harmless', exist_ok=True)
-shutil.copyfile(os.path.join(seed, 'patch.diff'), '/verif/seeded/harmless/%s.patch.diff' % name)
-json.dump(res, open('/verif/seeded/harmless/%s.json' % name, 'w'), indent=1)
+out = '/verif/seeded/harmless/%s' % name
+os.makedirs(out, exist_ok=True)
+for f in ('patch.diff', 'meta.json'):
+    if os.path.realpath(os.path.join(seed, f)) != os.path.realpath(os.path.join(out, f)):
+        shutil.copyfile(os.path.join(seed, f), os.path.join(out, f))
+json.dump(res, open(os.path.join(out, 'result.json'), 'w'), indent=1)
 print(name, 'FALSE-ALARM' if res['false_alarm'] else 'ok', 'exit2:', res['undecided'])
 for k, v in res['checks'].items():
     if v['exit'] != 0:
